@@ -4,6 +4,8 @@ package main
 
 import (
 	"fmt"
+	"go/token"
+	"go/types"
 	"strings"
 
 	"golang.org/x/tools/go/ssa"
@@ -13,8 +15,9 @@ func init() {
 	property("C07",
 		"Static conformance of the structural part of format(): (a) conservation — in the main loop of FormatText every non-break word is written to the current line exactly once on every path, every reset of the current line is preceded by flushing it to the output, a break word flushes the line, writes one break code and one newline, the final line is flushed after the loop, and nothing but the word, a single space, the line content, the break codes and the newline byte is ever written; (b) break discipline shape — the automatic break (\\N) and the wrap choose between \\n and \\l by the same predicate over (current line number, numLines), the line number is incremented on every line end and reset by a paragraph break; (c) parameter binding — each named format() parameter reaches the FormatText parameter of the same meaning, font-config fallbacks read the field of the same name under the font id that is passed to FormatText. NOT decided (runtime arithmetic): that every line fits maxLineLength, that a word moves only when it does not fit, cursor-overlap accounting, and getNextWord's tokenisation.",
 		[]string{"pixel-width arithmetic and getNextWord tokenisation are not decided (DESIGN §6)", "go/ssa lowering is faithful to the source"},
-		"C07.a", "C07.b", "C07.c")
+		"C07.a", "C07.b", "C07.c", "C07.d")
 
+	register(&Rule{ID: "C07.d", Doc: "formatting is a function of (text, font table, parameters): the formatter writes no state; depth counters of the word scanner cannot go negative", Floor: 3, Run: c07d})
 	register(&Rule{ID: "C07.a", Doc: "FormatText conservation: words written once, flush before reset, final flush, who-writes-what", Floor: 10, Run: c07a})
 	register(&Rule{ID: "C07.b", Doc: "break choice predicate agrees at both sites; line counter discipline", Floor: 4, Run: c07b})
 	register(&Rule{ID: "C07.c", Doc: "format() parameter binding and font-config fallbacks", Floor: 8, Run: c07c})
@@ -511,4 +514,113 @@ func c07c(c *Ctx) {
 		}
 	}
 	c.Check(okInt, "unnamed/int-is-max-line-length", c.W.Pos(call.Pos()), "an unnamed integer is the maximum line length", "no unnamed integer parameter reaches FormatText's maxWidth")
+}
+
+// c07d: (i) FormatText and everything it calls write no heap state (Effects): a width or a
+// word boundary cannot depend on an earlier format() of the same run; (ii) in the word
+// scanner (and every other scanning loop of package parser) a nesting-depth counter that is
+// compared with zero is only decremented where it is known to be positive: a stray closing
+// brace must not push the depth below zero, where "depth == 0" (spaces break words, escapes
+// are break codes) would never hold again.
+func c07d(c *Ctx) {
+	ft := c.Fn("parser.FontConfig.FormatText")
+	if ft == nil {
+		return
+	}
+	// functions reachable from FormatText and from every FontConfig method
+	reach := map[*ssa.Function]bool{}
+	var visit func(f *ssa.Function)
+	visit = func(f *ssa.Function) {
+		if f == nil || reach[f] || !c.W.InRepo(f) || len(f.Blocks) == 0 {
+			return
+		}
+		reach[f] = true
+		for _, ci := range callsIn(f) {
+			for _, g := range c.Eff().targets(ci) {
+				visit(g)
+			}
+		}
+	}
+	visit(ft)
+	nMeth := 0
+	for _, fn := range c.W.FuncsOf("parser") {
+		recv := fn.Signature.Recv()
+		if recv == nil || !typeIs(recv.Type(), "parser", "FontConfig") || isTestFunc(c.W, fn) {
+			continue
+		}
+		nMeth++
+		visit(fn)
+	}
+	freshRoot := func(v ssa.Value) bool {
+		switch rootValue(v).(type) {
+		case *ssa.Alloc, *ssa.MakeSlice, *ssa.MakeMap:
+			return true
+		}
+		return false
+	}
+	nFn := 0
+	for fn := range reach {
+		nFn++
+		fk := c.W.FuncKey(fn)
+		instrs(fn, func(in ssa.Instruction) {
+			switch x := in.(type) {
+			case *ssa.Store:
+				if !freshRoot(x.Addr) {
+					c.Bad(fk+"/writes["+storeClass(x.Addr)+"]", c.W.Pos(x.Pos()), "the formatter writes "+storeClass(x.Addr)+", which outlives the call: the result of a later format() could depend on this one")
+				}
+			case *ssa.MapUpdate:
+				if !freshRoot(x.Map) {
+					c.Bad(fk+"/updates-map["+shortType(x.Map.Type())+"]", c.W.Pos(x.Pos()), "the formatter updates a map that outlives the call ("+pretty(c.term(fn, x.Map))+"): widths or results looked up later could depend on earlier calls")
+				}
+			}
+		})
+	}
+	c.OK("formatter/writes-nothing", c.W.FuncPos(ft), fmt.Sprintf("%d functions reachable from FormatText and the FontConfig methods write only objects they create themselves", nFn))
+	c.Check(nMeth >= 5, "FontConfig/methods", "-", fmt.Sprintf("%d FontConfig methods", nMeth), "FontConfig methods not found")
+	// (ii) depth counters
+	nCounters := 0
+	for _, fn := range c.W.FuncsOf("parser") {
+		if isTestFunc(c.W, fn) {
+			continue
+		}
+		instrs(fn, func(in ssa.Instruction) {
+			p, ok := in.(*ssa.Phi)
+			if !ok || !isLoopHeader(p.Block()) {
+				return
+			}
+			if b, ok := p.Type().Underlying().(*types.Basic); !ok || b.Kind() != types.Int {
+				return
+			}
+			pt := c.term(fn, p)
+			// compared with zero somewhere?
+			zeroTested := false
+			for _, r := range *p.Referrers() {
+				if bo, ok := r.(*ssa.BinOp); ok && (bo.Op == token.EQL || bo.Op == token.NEQ || bo.Op == token.GTR || bo.Op == token.LSS) {
+					if k, isC := intConst(bo.Y); isC && k == 0 {
+						zeroTested = true
+					}
+					if k, isC := intConst(bo.X); isC && k == 0 {
+						zeroTested = true
+					}
+				}
+			}
+			if !zeroTested {
+				return
+			}
+			for _, r := range *p.Referrers() {
+				bo, ok := r.(*ssa.BinOp)
+				if !ok || bo.Op != token.SUB || bo.X != ssa.Value(p) {
+					continue
+				}
+				if k, isC := intConst(bo.Y); !isC || k != 1 {
+					continue
+				}
+				nCounters++
+				must := c.mustLits(fn, bo.Block())
+				okG := hasLit(must, "+(0 < "+pt+")") || hasLit(must, "-("+pt+" == 0)")
+				c.Check(okG, fmt.Sprintf("%s/depth-counter[%s]", c.W.FuncKey(fn), pretty(pt)), c.W.Pos(bo.Pos()), "the depth counter is decremented only where it is positive", "the nesting depth "+pretty(pt)+" is decremented without a test that it is positive: an unbalanced closing delimiter makes it negative and the 'depth == 0' tests never hold again")
+			}
+		})
+	}
+	c.Check(nCounters >= 3, "depth-counters", "-", fmt.Sprintf("%d guarded decrements of zero-tested loop counters in package parser", nCounters), "fewer depth counters than confirmed by hand")
 }
